@@ -101,13 +101,13 @@ PROPS['C07'] = dict(
     assumptions=["histories up to the end of the session"],
 )
 PROPS['C08'] = dict(
-    prop_modules=['Vise.Props.C08'], lean_targets=['Vise.Props.C08'], suites=['engine'],
+    prop_modules=['Vise.Props.C08'], lean_targets=['Vise.Props.C08'], suites=['engine', 'cache'],
     compare={'engine': eng(['x', 'f', 'fin', 'p', 'i', 'fr', 'sz', 'u'])},
     trusted=ENGINE_TRUSTED + ["well-formedness (wf=1) is established by the generator's construction rules, not re-checked"],
     assumptions=["external results + capacity < 2^32 (EnvBounded)"],
 )
 PROPS['C18'] = dict(
-    prop_modules=['Vise.Props.C18'], lean_targets=['Vise.Props.C18'], suites=['engine'],
+    prop_modules=['Vise.Props.C18'], lean_targets=['Vise.Props.C18'], suites=['engine', 'db'],
     compare={'engine': eng(['x', 'lk', 'cl', 'lg', 'o'])},
     trusted=ENGINE_TRUSTED + ["the ISO-639 table (github.com/barbashov/iso639-3) is a parameter; the harness fills it by hand for the codes it uses (nor/no, eng/en, swa, fra/fr) and the real LanguageFromCode runs on the Go side",
                               "gettext PO resources (resource/gettext.go) are not modelled"],
@@ -120,7 +120,8 @@ PROPS['C20'] = dict(
 )
 
 PROPS['C02'] = dict(
-    prop_modules=['Vise.Props.C02'], lean_targets=['Vise.Props.C02'], suites=['render'],
+    prop_modules=['Vise.Props.C02'], lean_targets=['Vise.Props.C02'], suites=['render', 'engine'],
+    compare={'engine': eng(['x', 'f', 'o', 'i'])},
     trusted=ENGINE_TRUSTED + ["the render suite renders every index on a fresh Page/Menu/Sizer, as the engine does per request; walking with the next selector through the engine is covered by the engine suite's lst/sub nodes"],
     assumptions=["OutputSize > 0"],
 )
